@@ -446,6 +446,139 @@ def retry_loop(ctx):
                         '"Redo from start"', f.file, i.line)
 
 
+def input_syntax(ctx):
+    """INPUT [;] ["prompt" {;|,}] var, ...: a leading semicolon keeps the
+    cursor on the line, the separator after the prompt decides the question
+    mark (`;` shows `? `, `,` does not; no prompt shows it), everything else
+    is the variable list.  parse_input is interpreted on each of the eight
+    token-list forms the rule can deliver."""
+    import itertools
+    from ..absint import (AbsObj, Interp, Closure, Env, Raised, Unmodelled,
+                          PathEnd, explore)
+    from ..grammar_shapes import Toks
+    repo = ctx.repo
+    rule = 'C18.input-syntax-decides-flags'
+    ctx.rule(rule, 'parse_input, interpreted on every form of the INPUT '
+             'statement (with/without the leading `;`, with/without a '
+             'prompt, prompt followed by `;` or `,`), builds InputStmt with '
+             'same_line = leading semicolon, prompt_question = no prompt or '
+             'separator `;`, the prompt literal itself and the remaining '
+             'tokens as the variable list')
+    g = repo.module('qbee.grammar')
+    f = g.functions.get('parse_input')
+    if f is None:
+        raise AnalysisError('anchor vanished: parse_input')
+
+    class Lit(AbsObj):
+        def __init__(self, v):
+            self.value = v
+
+        def getattr_(self, a, interp):
+            if a == 'value':
+                return self.value
+            raise Unmodelled(f'literal.{a}')
+
+        def eq_(self, other):
+            return other is self
+
+    class LitCls(AbsObj):
+        is_callable = True
+
+        def call_(self, args, kwargs, interp):
+            return Lit(args[0] if args else '')
+
+        def instancecheck_(self, x):
+            return isinstance(x, Lit)
+
+    class Var(AbsObj):
+        def __init__(self, n):
+            self.n = n
+
+        def eq_(self, other):
+            return other is self
+
+        def __repr__(self):
+            return self.n
+
+    class Fn(AbsObj):
+        is_callable = True
+
+        def __init__(self, fn):
+            self.fn = fn
+
+        def call_(self, args, kwargs, interp):
+            return self.fn(*args, **kwargs)
+
+    class Hooks:
+        def global_name(self, modname, name, interp):
+            if name == 'StringLiteral':
+                return LitCls()
+            if name == 'InputStmt':
+                return Fn(lambda *a: ('InputStmt',) + tuple(a))
+            if name in ('logger', 'logging'):
+                class Null(AbsObj):
+                    def getattr_(self, a, interp):
+                        return Fn(lambda *a, **k: None)
+                return Null()
+            raise KeyError(name)
+
+        def on_unknown_call(self, f_, args, kwargs, node, interp):
+            raise Unmodelled('unknown call')
+    n = 0
+    for lead, prompt, sep, nvars in itertools.product(
+            (False, True), (False, True), (';', ','), (1, 2)):
+        if not prompt and sep == ',':
+            continue
+        lit = Lit('p')
+        vs = [Var(f'v{i}') for i in range(nvars)]
+        toks = ([';'] if lead else []) + ([lit, sep] if prompt else []) + vs
+        label = ('; ' if lead else '') + (f'"p"{sep} ' if prompt else '') + \
+            ', '.join(v.n for v in vs)
+        construct = f'{g.relpath}:parse_input:INPUT {label}'
+
+        def run(oracle, toks=toks):
+            interp = Interp(Hooks(), oracle)
+            try:
+                return ('ok', Closure(
+                    f.node, Env(None, globals_='qbee.grammar'),
+                    name='parse_input').call_([Toks(list(toks))], {},
+                                              interp))
+            except Raised as r:
+                return ('raise', r.cls_name, str(r.value)[:60])
+            except PathEnd as e:
+                return ('end', str(e))
+        try:
+            res = [r for _, r in explore(run, 20)]
+        except Unmodelled as u:
+            ctx.observe(f'{construct}: not modelled ({u}); undecided')
+            ctx.instance(rule, construct, nontrivial=False)
+            continue
+        n += 1
+        ctx.instance(rule, construct)
+        want_q = (not prompt) or sep == ';'
+        for r in res:
+            ok = r[0] == 'ok' and isinstance(r[1], tuple) and \
+                len(r[1]) == 5
+            if ok:
+                _, same, pr, q, vl = r[1]
+                vl = list(vl.items) if isinstance(vl, Toks) else list(vl)
+                ok = same is lead and q is want_q and \
+                    (pr is lit if prompt else
+                     (isinstance(pr, Lit) and pr.value == '')) and \
+                    len(vl) == nvars and all(a is b for a, b in zip(vl, vs))
+            if not ok:
+                got = r[1][1:4] if r[0] == 'ok' and isinstance(
+                    r[1], tuple) else r
+                ctx.finding(rule, construct,
+                            f'INPUT {label}: parse_input builds '
+                            f'(same_line, prompt, question, ...) = {got}; '
+                            f'the statement means same_line={lead}, '
+                            f'question mark={want_q}, {nvars} variable(s)',
+                            g.relpath, f.line)
+                break
+    ctx.floor('INPUT statement forms interpreted', n, 10)
+
+
 def run(ctx):
     ctx.clauses = [
         'argument protocol gen_input <-> _exec_input; type-id protocol',
@@ -468,6 +601,7 @@ def run(ctx):
     range_constants(ctx)
     builtin_targets(ctx)
     retry_loop(ctx)
+    input_syntax(ctx)
     from .. import gensim
     gensim.check_input_prompt(ctx, 'C18')
     return ('Emitter/consumer protocol agreement between gen_input and '
